@@ -56,6 +56,9 @@ W w_optional(uint64_t n, int64_t a, int64_t b, int64_t off, int64_t fi, int64_t 
     else if (which == 1) ra_laws(v.cbegin(), a, b, off, fi, fd, fr, optval(), out);
     else ra_laws(v.rbegin(), a, b, off, fi, fd, fr, optval(), out);
     out[19] = v.end() - v.begin(); out[20] = v.cend() - v.cbegin(); out[21] = v.rend() - v.rbegin();
+    const xtl::xoptional_vector<int>& cv = v;      // the un-prefixed accessor pairs of a const sequence, and the c-prefixed reverse pair
+    out[22] = cv.end() - cv.begin(); out[23] = cv.rend() - cv.rbegin(); out[24] = v.crend() - v.crbegin();
+    out[25] = n ? optval()(*cv.rbegin()) - optval()(*(cv.end() - 1)) : 0;
 }
 struct cpxval { template <class P> int64_t operator()(const P& p) const { return static_cast<int64_t>(p.real()) * 1000 + static_cast<int64_t>(p.imag()); } };
 W w_complex(uint64_t n, int64_t a, int64_t b, int64_t off, int64_t fi, int64_t fd, int64_t fr, int64_t which, int64_t* out)
@@ -66,6 +69,9 @@ W w_complex(uint64_t n, int64_t a, int64_t b, int64_t off, int64_t fi, int64_t f
     else if (which == 1) ra_laws<false>(v.cbegin(), a, b, off, fi, fd, fr, cpxval(), out);
     else ra_laws<false>(v.crbegin(), a, b, off, fi, fd, fr, cpxval(), out);
     out[19] = v.end() - v.begin(); out[20] = v.cend() - v.cbegin(); out[21] = v.rend() - v.rbegin();
+    const xtl::xcomplex_vector<double>& cv = v;
+    out[22] = cv.end() - cv.begin(); out[23] = cv.rend() - cv.rbegin(); out[24] = v.crend() - v.crbegin();
+    out[25] = n ? cpxval()(*cv.rbegin()) - cpxval()(*(cv.end() - 1)) : 0;
 }
 // ---- stepping iterator over an int array, step >= 1 ----
 struct intval { int64_t operator()(int x) const { return x; } };
